@@ -272,6 +272,17 @@ def gen_cases(desc, env):
             for b in grouped[k:k + 4]:
                 ops += expr_ops(b, obj='h')
             cases.append(core.case(ops, kind='expr', text=[enc(b) for b in grouped[k:k + 4]]))
+        if desc['i'] in (6, 7):
+            # the systematic families once more, all of them through ONE long-lived auditor in two different orders: whatever an
+            # analyser keeps between calls, "failed" must still coincide with "logged a critical error" on every single call
+            fam = [op['text'].encode('utf-8') for op in fixed['ops'][1:]]
+            for order in (fam, fam[::-1]):
+                for k in range(0, len(order), 150):
+                    ops = [ctxop]
+                    for b in order[k:k + 150]:
+                        t, syn = enc(b), 'MATH'
+                        ops.append({'op': 'rs.check', 'ctx': 'c', 'text': t, 'syntax': syn, 'obj': 'h'})
+                    cases.append(core.case(ops, kind='expr', text=[enc(b) for b in order[k:k + 150]]))
     elif kind == 'bytes':
         n = 150 if quick else 4000
         pool = [b'\xff', b'\xfe', b'\xc0\x80', b'\xc1\xbf', b'\xe0\x80\x80', b'\xf0\x80\x80\x80', b'\x80', b'\xbf', b'\xe2\x88', b'\xe2', b'\xf0\x9f\x98',
